@@ -1,16 +1,25 @@
 #!/bin/bash
 # Offline setup after a fresh restore: rebuild stale geometry extensions from the
-# generated .c files (gcc), byte-compile nothing (PYTHONDONTWRITEBYTECODE), and run
-# the reference-model self-tests.
-set -e
+# generated .c files (gcc) and run the reference-model self-tests listed in
+# selftest/required.txt (self-tests of modules still under construction are run
+# too, but only reported).
 cd "$(dirname "${BASH_SOURCE[0]}")"
-chmod +x check tools/*.sh 2>/dev/null || true
+chmod +x check tools/*.sh tools/*.py 2>/dev/null || true
 export VERIF_REPO="${VERIF_REPO:-/repo}"
-PYTHONPATH="$VERIF_REPO:$PWD" /venv/bin/python -m mcphot.buildext
-if [ -d selftest ]; then
-  for t in selftest/test_*.py; do
-    [ -e "$t" ] || continue
-    PYTHONPATH="$VERIF_REPO:$PWD" /venv/bin/python -W ignore "$t"
-  done
-fi
-echo setup ok
+export PYTHONHASHSEED=0 OMP_NUM_THREADS=1 OPENBLAS_NUM_THREADS=1 PYTHONDONTWRITEBYTECODE=1
+PYTHONPATH="$VERIF_REPO:$PWD" /venv/bin/python -m mcphot.buildext || exit 1
+rc=0
+for t in selftest/test_*.py; do
+  [ -e "$t" ] || continue
+  if PYTHONPATH="$VERIF_REPO:$PWD" /venv/bin/python -W ignore "$t" >/tmp/selftest.out 2>&1; then
+    echo "selftest ok: $t"
+  else
+    if grep -qx "$(basename "$t")" selftest/required.txt 2>/dev/null; then
+      echo "SELFTEST FAILED (required): $t"; tail -5 /tmp/selftest.out; rc=1
+    else
+      echo "selftest failed (not required, module under construction): $t"
+    fi
+  fi
+done
+[ $rc -eq 0 ] && echo setup ok
+exit $rc
